@@ -403,7 +403,8 @@ def check(model, rep, tier):
     if mfi is None:
       raise core.AnalysisError('GraphBuilder.%s not found' % mname)
     lps = [l for l in core.walk_no_nested(mfi.node) if isinstance(l, ast.For) and
-           core.norm(l.iter).startswith('self.%s[' % coll) and isinstance(l.target, ast.Name)]
+           tpl.xnorm(mfi, l.iter, l.iter).startswith('self.%s[' % coll) and isinstance(
+               l.target, ast.Name)]
     ok = len(lps) == 1
     facts = {}
     if ok:
